@@ -97,47 +97,47 @@ LInit == [m |-> "Top", v |-> <<>>, l |-> 1, cr |-> FALSE, scr |-> FALSE, c0 |-> 
 
 R(st, emit, rew, err) == [st |-> st, emit |-> emit, rew |-> rew, err |-> err]
 Stay(st) == R(st, <<>>, FALSE, NoErr)
-Emit(st, tok) == R(st, <<tok>>, FALSE, NoErr)
+Give(st, tok) == R(st, <<tok>>, FALSE, NoErr)
 Fail(st, id, arg) == R(st, <<>>, FALSE, Err(id, arg))
 Enter(st, m) == [st EXCEPT !.m = m, !.v = <<>>]
 ToTop(st) == [st EXCEPT !.m = "Top", !.v = <<>>, !.scr = FALSE, !.c0 = 0]
 
 (* ---- one step per mode ------------------------------------------------------ *)
 TopStep(st, c, o) ==
-    IF c = EOFC THEN Emit(st, EofTok)                                   \* _last_was_cr untouched
-    ELSE IF c \in {LBRACE, RBRACE, EQUALS, COMMA} THEN Emit(st, Op1(c)) \* _last_was_cr untouched
-    ELSE IF c = CR THEN Emit([st EXCEPT !.cr = TRUE, !.l = st.l + 1], NewlineTok)
+    IF c = EOFC THEN Give(st, EofTok)                                   \* _last_was_cr untouched
+    ELSE IF c \in {LBRACE, RBRACE, EQUALS, COMMA} THEN Give(st, Op1(c)) \* _last_was_cr untouched
+    ELSE IF c = CR THEN Give([st EXCEPT !.cr = TRUE, !.l = st.l + 1], NewlineTok)
     ELSE IF c = LF THEN
         IF st.cr THEN Stay([st EXCEPT !.cr = FALSE])                    \* the LF of CR LF
-        ELSE Emit([st EXCEPT !.l = st.l + 1], NewlineTok)
+        ELSE Give([st EXCEPT !.l = st.l + 1], NewlineTok)
     ELSE LET s == [st EXCEPT !.cr = FALSE] IN
         IF c \in {SPACE, TAB} THEN Stay(s)
         ELSE IF c = SLASH THEN Stay(Enter(s, "Slash"))
         ELSE IF c = DQ THEN Stay([Enter(s, "Str") EXCEPT !.scr = FALSE])
         ELSE IF c = LBRACK THEN
-            IF o.sb THEN Stay(Enter(s, "Flag")) ELSE Emit(s, Tok("BRACK_OPEN", <<c>>))
+            IF o.sb THEN Stay(Enter(s, "Flag")) ELSE Give(s, Tok("BRACK_OPEN", <<c>>))
         ELSE IF c = LPAREN THEN
-            IF o.sp THEN Stay(Enter(s, "Paren")) ELSE Emit(s, Tok("PAREN_OPEN", <<c>>))
+            IF o.sp THEN Stay(Enter(s, "Paren")) ELSE Give(s, Tok("PAREN_OPEN", <<c>>))
         ELSE IF c = BOM /\ s.l = 1 THEN Stay(s)
-        ELSE IF c = COLON /\ o.colon THEN Emit(s, Tok("COLON", <<c>>))
-        ELSE IF c = PLUS /\ o.plus THEN Emit(s, Tok("PLUS", <<c>>))
+        ELSE IF c = COLON /\ o.colon THEN Give(s, Tok("COLON", <<c>>))
+        ELSE IF c = PLUS /\ o.plus THEN Give(s, Tok("PLUS", <<c>>))
         ELSE IF c = RBRACK THEN
-            IF o.sb THEN Fail(s, "close_brack", 0) ELSE Emit(s, Tok("BRACK_CLOSE", <<c>>))
+            IF o.sb THEN Fail(s, "close_brack", 0) ELSE Give(s, Tok("BRACK_CLOSE", <<c>>))
         ELSE IF c = RPAREN THEN
-            IF o.sp THEN Fail(s, "close_paren", 0) ELSE Emit(s, Tok("PAREN_CLOSE", <<c>>))
+            IF o.sp THEN Fail(s, "close_paren", 0) ELSE Give(s, Tok("PAREN_CLOSE", <<c>>))
         ELSE IF c = HASH THEN Stay(Enter(s, "Dir"))
         ELSE IF c \notin BareDisallowed THEN Stay([s EXCEPT !.m = "Bare", !.v = <<c>>])
         ELSE Fail(s, "bad_char", c)                                     \* ' and ;
 
 FlagStep(st, c) ==
-    IF c = RBRACK THEN Emit(ToTop(st), Tok("PROP_FLAG", st.v))
+    IF c = RBRACK THEN Give(ToTop(st), Tok("PROP_FLAG", st.v))
     ELSE IF c = LF THEN Fail(st, "flag_eol", 0)
     ELSE IF c = LBRACK THEN Fail(st, "flag_nest", 0)
     ELSE IF c = EOFC THEN Fail(st, "flag_eof", 0)
     ELSE Stay([st EXCEPT !.v = Append(st.v, c)])
 
 ParenStep(st, c) ==
-    IF c = RPAREN THEN Emit(ToTop(st), Tok("PAREN_ARGS", st.v))
+    IF c = RPAREN THEN Give(ToTop(st), Tok("PAREN_ARGS", st.v))
     ELSE IF c = LF THEN Stay([st EXCEPT !.v = Append(st.v, c), !.l = st.l + 1])
     ELSE IF c = LPAREN THEN Fail(st, "paren_nest", 0)
     ELSE IF c = EOFC THEN Fail(st, "paren_eof", 0)
@@ -147,7 +147,7 @@ EndsWord(c, o) == c \in BareDisallowed \/ (c = COLON /\ o.colon) \/ (c = PLUS /\
 \* "#name" directives (case folded) and bare words: the ending character is delivered again
 WordStep(st, c, cf, ttype) ==
     IF EndsWord(c, cf.o) THEN R(ToTop(st), <<Tok(ttype, st.v)>>, TRUE, NoErr)
-    ELSE IF c = EOFC THEN Emit(ToTop(st), Tok(ttype, st.v))
+    ELSE IF c = EOFC THEN Give(ToTop(st), Tok(ttype, st.v))
     ELSE Stay([st EXCEPT !.v = st.v \o (IF ttype = "DIRECTIVE" THEN Fold(c, cf.fold) ELSE <<c>>)])
 
 SlashStep(st, c, o) ==
@@ -179,7 +179,7 @@ WithS(st, s) == [st EXCEPT !.v = s.v, !.scr = s.scr, !.l = s.nl]
 StringStep(st, c, o) ==
     LET r == IF st.m = "Str" THEN StrStep(SOf(st), c, o.esc) ELSE EscStep(SOf(st), c)
         s2 == WithS(st, r.s)
-    IN  CASE r.k = "close"   -> Emit(ToTop(s2), Tok("STRING", r.s.v))
+    IN  CASE r.k = "close"   -> Give(ToTop(s2), Tok("STRING", r.s.v))
           [] r.k = "more"    -> Stay([s2 EXCEPT !.m = "Str"])
           [] r.k = "esc"     -> Stay([s2 EXCEPT !.m = "StrEsc"])
           [] r.k = "err_eof" -> Fail(s2, "str_eof", 0)
